@@ -64,7 +64,7 @@ macro_rules! json_array_internal {
 
     // Next value is `null`.
     ([ $($elems:expr,)* ] null $($rest:tt)*) => {
-        $crate::json_array_internal!([ $($elems,)* $crate::Value::Null, ])
+        $crate::json_array_internal!([ $($elems,)* $crate::Value::Null, ] $($rest)*)
     };
 
     // Next value is an array.
